@@ -14,10 +14,12 @@ import (
 	"context"
 	"fmt"
 	"io/ioutil"
+	"reflect"
 	"sort"
 	"strings"
 	"testing"
 	"time"
+	"unsafe"
 
 	pb "github.com/GoogleCloudPlatform/grpc-gcp-go/grpcgcp/grpc_gcp"
 	"google.golang.org/grpc/balancer"
@@ -205,10 +207,14 @@ type sim struct {
 	log       []string
 	viol      *vViol
 	exemptMax bool
-	stuck     bool // an op goroutine was left spinning: stop the whole batch (it burns a CPU)
-	dead      bool // the balancer is unusable (deadlock) - stop the history
-	caseIdx   int64
-	hits      map[string]int64
+	// NewSubConn calls that passed an empty address list although the latest resolved list is not empty
+	emptyAddrCalls int
+	// an empty resolver list is being delivered right now (s.addrs is updated after the call)
+	resolvingEmpty bool
+	stuck          bool // an op goroutine was left spinning: stop the whole batch (it burns a CPU)
+	dead           bool // the balancer is unusable (deadlock) - stop the history
+	caseIdx        int64
+	hits           map[string]int64
 
 	// effective configuration (contract defaults applied by the harness)
 	minSize, maxSize, wm int
@@ -252,6 +258,9 @@ type simCC struct {
 func (c simCC) NewSubConn(a []resolver.Address, o balancer.NewSubConnOptions) (balancer.SubConn, error) {
 	s := c.s
 	s.boundary++
+	if len(a) == 0 && s.addrs != "" && !s.resolvingEmpty {
+		s.emptyAddrCalls++
+	}
 	if len(a) == 0 || s.failNext > 0 {
 		if s.failNext > 0 {
 			s.failNext--
@@ -387,17 +396,15 @@ func simChID(c *simChan) string {
 
 // window of the detector model, saturating.
 func (s *sim) window(k uint32) time.Duration {
-	if k > 40 {
-		k = 40
+	// ms x 2^k milliseconds, saturating at the largest Duration
+	const maxMs = uint64((1<<63 - 1) / int64(time.Millisecond))
+	if s.ms == 0 {
+		return 0
 	}
-	w := uint64(s.ms) * (uint64(1) << k) // ms <= 2^32, k <= 40 -> < 2^72: guard below
-	if s.ms != 0 && w/uint64(s.ms) != uint64(1)<<k {
+	if k >= 63 || uint64(s.ms) > maxMs>>k {
 		return time.Duration(1<<63 - 1)
 	}
-	if w > uint64((1<<63-1)/int64(time.Millisecond)) {
-		return time.Duration(1<<63 - 1)
-	}
-	return time.Duration(w) * time.Millisecond
+	return time.Duration(uint64(s.ms)<<k) * time.Millisecond
 }
 
 // exec runs f as one operation on the code under test and classifies how it
@@ -526,6 +533,10 @@ func (s *sim) afterOp() {
 	if s.hostile {
 		return
 	}
+	if s.emptyAddrCalls > 0 {
+		s.fail("C20.new-addr", "lost-addresses", "during %s the balancer asked for a new connection with an empty address list although the latest resolved list is [%s]", s.curOp, s.addrs)
+		return
+	}
 	// C02 (white-box secondary): active-stream count == harness in-flight.
 	for _, ch := range s.chans {
 		ref := s.b.scRefs[ch.conn]
@@ -619,7 +630,9 @@ func (s *sim) resolve(empty bool, cfg *pb.ApiConfig, withCfg bool) {
 		ccs.BalancerConfig = &GCPBalancerConfig{ApiConfig: cfg}
 	}
 	factoryFailing := s.failNext > 0
+	s.resolvingEmpty = empty
 	h, st := s.exec(func() { s.b.UpdateClientConnState(ccs) })
+	s.resolvingEmpty = false
 	s.addrs = newAddrs
 	if !s.completed(h, st, "resolver update") {
 		if st == vParked {
@@ -974,6 +987,13 @@ func (s *sim) start(method string, key string, p *simPub, withGcp bool, hasDl bo
 		return
 	}
 	if !s.completed(h, st, "pick "+method) {
+		if rrBind && !s.hostile && s.prop == "C09" && s.viol != nil && s.viol.Rule == "C05.panic" {
+			// C09: a round-robin BIND call was not assigned to any channel
+			v := s.viol
+			v.Detail = "a round-robin BIND call panicked instead of being assigned to its channel: " + v.Detail
+			v.Sig = "C09.rr-unassigned:" + strings.TrimPrefix(v.Sig, "C05.")
+			v.Rule = "C09.rr-unassigned"
+		}
 		return
 	}
 	if useOverride {
@@ -1420,6 +1440,10 @@ func (s *sim) finish(i int, outcome string, replyKeys []string) {
 		return
 	}
 	attempts := len(s.newInOp) + s.newFail
+	if len(s.newInOp) >= 1 && ch.alive && ch.repl != nil && s.prop == "C03" && !s.hostile {
+		// C03: a refresh may hold ONE extra connection per refreshing channel
+		s.fail("C03.refresh-extra", "", "channel %d already has a pending replacement (%v) and a completion created another connection (%v): more than one extra connection for a refreshing channel", ch.id, ch.repl, s.newInOp[0])
+	}
 	if len(s.newInOp) == 1 && ch.alive {
 		r := s.newInOp[0]
 		r.replOf = ch
@@ -1753,6 +1777,15 @@ func simRunCase(env vEnv, out *vOut, idx int64) *sim {
 	s.say("config min=%d max=%d watermark=%d fallback=%v detection=%v(calls=%d ms=%d) rr=%v hostile=%v bias=%v", cp.MinSize, cp.MaxSize, cp.MaxConcurrentStreamsLowWatermark, s.fallback, s.det, s.ucalls, s.ms, s.rr, s.hostile, simBiasNames(b))
 	cfg := &pb.ApiConfig{ChannelPool: cp, Method: mcfg}
 	s.b = newBuilder().Build(simCC{s: s}, balancer.BuildOptions{}).(*gcpBalancer)
+	if s.rr && !s.hostile && rng.Chance(12) {
+		// put the round-robin cursor a few tickets before 2^31 (a signed 32-bit
+		// cursor would turn negative there); the unsigned wrap at 2^32 itself is
+		// not exercised (DESIGN section 8)
+		if simSetCursor(s.b, uint64(1)<<31-uint64(2+rng.Intn(6))) {
+			s.hit("C09.cursor-near-2^31")
+			s.say("round-robin cursor preset just below 2^31")
+		}
+	}
 
 	// first resolver update(s)
 	if (b["emptyresolve"] || s.hostile) && rng.Chance(40) {
@@ -1775,7 +1808,7 @@ func simRunCase(env vEnv, out *vOut, idx int64) *sim {
 		s.resolve(false, cfg, true)
 	}
 	if b["extreme"] && s.viol == nil && !s.dead {
-		s.refreshChain(1 + rng.Intn(45))
+		s.refreshChain(1 + rng.Intn(70))
 	}
 	nOps := 30 + rng.Intn(90)
 	macroAt := -1
@@ -2329,6 +2362,10 @@ func TestVerifPoolSim(t *testing.T) {
 // current window, complete it with a client-side deadline error, and let the
 // replacement become READY. The ordinary rule monitors judge every step.
 func (s *sim) refreshChain(n int) {
+	// half of the chains cross the window every time (k grows by one per step, so
+	// that the saturated region of the window arithmetic is reached); the others
+	// sample the boundary itself (-1ns, 0, +1ns)
+	always := s.rng.Bool()
 	for i := 0; i < n && s.viol == nil && !s.dead; i++ {
 		p := s.pool()
 		if len(p) == 0 {
@@ -2353,10 +2390,17 @@ func (s *sim) refreshChain(n int) {
 		}
 		win := s.window(ch.k)
 		var dt time.Duration
-		if win >= time.Duration(1<<62) {
+		if win == time.Duration(1<<63-1) {
+			// saturated (ms x 2^k is 292 years or more): stay well inside the true
+			// window; the time since the last response must itself stay below
+			// 2^63 ns for the comparison to be meaningful (DESIGN section 11)
 			dt = time.Hour
 		} else {
-			target := ch.t0.Add(win).Add(time.Duration(s.rng.Intn(3)) * time.Nanosecond) // window, +1ns, +2ns as seen by the completion
+			off := s.rng.Intn(3)
+			if always && s.rng.Intn(8) != 0 {
+				off = 2
+			}
+			target := ch.t0.Add(win).Add(time.Duration(off) * time.Nanosecond) // window, +1ns, +2ns as seen by the completion
 			dt = target.Sub(verifClock) - time.Nanosecond
 		}
 		if dt > 0 {
@@ -2365,6 +2409,9 @@ func (s *sim) refreshChain(n int) {
 		}
 		if s.window(ch.k) >= time.Duration(1)<<32*time.Millisecond || ch.k >= 20 {
 			s.hit("C07.extreme-window")
+		}
+		if s.window(ch.k) >= time.Duration(1<<63-1) {
+			s.hit("C07.saturated-window")
 		}
 		s.finish(len(s.calls)-1, "de", nil)
 		if s.viol != nil || s.dead {
@@ -2499,6 +2546,26 @@ func (s *sim) macroShutdownDuringRefresh() bool {
 	}
 	if ok() {
 		s.report(repl, connectivity.Ready)
+	}
+	return true
+}
+
+// simSetCursor presets the balancer's round-robin cursor through reflection so
+// that the harness does not depend on the field's exact integer type. Returns
+// false if there is no such field.
+func simSetCursor(b *gcpBalancer, v uint64) bool {
+	f := reflect.ValueOf(b).Elem().FieldByName("rrRefId")
+	if !f.IsValid() || !f.CanAddr() {
+		return false
+	}
+	p := reflect.NewAt(f.Type(), unsafe.Pointer(f.UnsafeAddr())).Elem()
+	switch p.Kind() {
+	case reflect.Uint32, reflect.Uint64, reflect.Uint:
+		p.SetUint(v)
+	case reflect.Int32, reflect.Int64, reflect.Int:
+		p.SetInt(int64(v))
+	default:
+		return false
 	}
 	return true
 }
